@@ -1,0 +1,63 @@
+//go:build verif
+
+// Contracts for the parser runtime in peg.go.tmpl, read by /verif/govc (comment-only).
+// They are keyed by the names the functions have in an instantiated file. The spec functions
+// OK/END/APP/MX (PEG semantics of a rule), abs/snoc (token sequences), upd (furthest-token
+// register), bufc/n (the input) are declared by govc's pegspec from the grammar.
+
+package tree
+
+//@ pred live() = abs(elems(tree.tree), tokenIndex)
+//@ pred absAt(j int) = abs(elems(tree.tree), j)
+//@ pred inputOK() = n >= 0 && runeAtC(n) == 1114112 && forall(i, imp(0 <= i && i < n, 0 <= runeAtC(i) && runeAtC(i) <= 1114111))
+//@ pred RT() = p != nil && elems(buffer) == bufc && soff(buffer) == 0 && len(buffer) == n+1 && inputOK()
+//@      && 0 <= position && position <= n && n+1 <= maxU
+//@      && soff(tree.tree) == 0 && tokenIndex <= len(tree.tree)
+//@      && maxToken.begin <= maxToken.end && maxToken.end <= n
+
+//@ closure Init.add
+//@   requires RT() && begin <= position
+//@   ensures  RT() && position == old(position) && tokenIndex == old(tokenIndex) + 1
+//@   ensures  live() == snoc(old(live()), mk(token, rule, begin, position))
+//@   ensures  forall(j, imp(j <= old(tokenIndex), absAt(j) == old(absAt(j))))
+//@   ensures  maxToken == upd(old(maxToken), mk(token, rule, begin, position))
+//@   modifies var tokenIndex, tree, maxToken
+//@   modifies Elems.DT_token at b where true
+
+//@ closure Init.matchDot
+//@   requires RT()
+//@   ensures  RT() && result == (old(position) < n) && position == old(position) + ite(result, 1, 0)
+//@   modifies var position
+
+//@ closure Init.memoize
+//@   requires RT()
+//@   ensures  RT()
+//@   modifies MapDom.DT_memoKey!DT_memo, MapVal.DT_memoKey!DT_memo at b where true
+//@   modifies Elems.DT_token at b where false
+
+//@ closure Init.memoizedResult
+//@   requires RT()
+//@   ensures  RT()
+//@   ensures  result == OK(r, old(position))
+//@   ensures  imp(result, position == END(r, old(position)) && old(position) <= position)
+//@   ensures  imp(!result, position == old(position) && tokenIndex == old(tokenIndex))
+//@   ensures  imp(result, live() == APP(r, old(position), old(live())) && tokenIndex >= old(tokenIndex))
+//@   ensures  forall(j, imp(j <= old(tokenIndex), absAt(j) == old(absAt(j))))
+//@   ensures  maxToken == MX(r, old(position), old(maxToken))
+//@   ensures  imp(AS(r), result)
+//@   modifies var position, tokenIndex, tree, maxToken
+//@   modifies Elems.DT_token at b where true
+
+//@ closure Init.$rule
+//@   requires RT()
+//@   ensures  RT()
+//@   ensures  result == OK(r, old(position))
+//@   ensures  imp(result, position == END(r, old(position)) && old(position) <= position)
+//@   ensures  imp(!result, position == old(position) && tokenIndex == old(tokenIndex))
+//@   ensures  imp(result, live() == APP(r, old(position), old(live())) && tokenIndex >= old(tokenIndex))
+//@   ensures  forall(j, imp(j <= old(tokenIndex), absAt(j) == old(absAt(j))))
+//@   ensures  maxToken == MX(r, old(position), old(maxToken))
+//@   ensures  imp(AS(r), result)
+//@   modifies var position, tokenIndex, tree, maxToken
+//@   modifies Elems.DT_token at b where true
+//@   modifies MapDom.DT_memoKey!DT_memo, MapVal.DT_memoKey!DT_memo at b where true
